@@ -238,6 +238,7 @@ func RunC06(c *engine.Ctx) {
 	c.Add("traces_validated_against_impl", evals)
 	c.Cov["rejected"] = rejected
 	c.Cov["reference_accepts"] = refAccepts
+	siblingEtypes(c)
 	concurrentSchedules(c, "C06")
 	c.Cov["rule"] = "for etype(6) x plaintext length 0..64: every single-bit flip, every truncation, appended/prepended bytes, every swap of two aligned blocks, every other usage of the usage set and a dense sweep 1..1200 (rc4: modulo RFC 4757 aliases), the full made-under x presented-under matrix for usages 0..32 and 127/128/255/256, flips and truncations under usage 0, each through the etype method and (for a third of the cases and all substitutions) crypto.DecryptMessage and crypto.DecryptEncPart, 3 unrelated keys, same key under each other etype of equal key length; distinct = (etype, mutation class) pairs that were exercised and rejected"
 }
